@@ -26,7 +26,7 @@ ASSUMPTIONS = ["the cached name-server proxy of the gateway module is seeded wit
 REQUIRED_REACH = ["unauthorised_refused", "forwarded_ok", "meta_ok", "errors_500_ok", "oneway_ok", "non_call_requests", "pattern_mismatch_refused", "key_missing_refused", "lost_reply_once_ok"]
 SHARD_TIMEOUT = {"quick": 240, "thorough": 3000}
 KEY = "s3cret"
-OBJ_NAMES = ["http.calc", "http.calc2", "http.other", "Http.calc", "xhttp.calc", "other.obj", "http.", "http.a/b", "xother.obj", "a.other.x"]
+OBJ_NAMES = ["http.calc", "http.calc2", "http.other", "Http.calc", "xhttp.calc", "other.obj", "http.", "http.a/b", "xother.obj", "a.other.x", "http.a%41", "http.aA", "http.b+c"]
 PATTERNS = [r"http\.", "", r"^http\.calc$", r"http\.calc|other\.", r"http\.(calc|other)$", "http."]
 
 
@@ -154,7 +154,8 @@ def gen_request(r):
     method = r.choice(["GET"] * 12 + ["POST"] * 4 + ["OPTIONS", "PUT", "DELETE", "HEAD", "PATCH", "get", "Post", "GETX", "XPOST", "ET", "GE", "POS", "OST", "T", "OPTION",
                        "PTIONS", "O", "", ", ", "GET, POST", "GET ", " POST", "TRACE", "CONNECT"])      # any method token a WSGI caller may hand in
     k = r.random()
-    obj = r.choice(OBJ_NAMES + ["http.calc"] * 8 + ["http.calc2", "http.other", "http.cal", "http.calcx", "HTTP.CALC", "ttp.calc", "nosuch.obj", "http.nosuch"])
+    obj = r.choice(OBJ_NAMES + ["http.calc"] * 8 + ["http.calc2", "http.other", "http.cal", "http.calcx", "HTTP.CALC", "ttp.calc", "nosuch.obj", "http.nosuch",
+                                                     "http.c%61lc", "http%2Ecalc", "http.calc%32", "http.a%2541", "http.b%2Bc", "http.b c"])   # (names are taken as they arrive: no second decoding)
     member = r.choice(["add", "record", "record", "fail", "fire", "nothing", "status", "$meta", "nosuch", "_private", "__class__", "drop"])
     if k < 0.06:
         path = r.choice(["", "/", "/pyro", "/pyro/", "/other", "/pyro/" + obj, "/pyro//", "/pyrox/" + obj + "/" + member, "pyro/" + obj + "/" + member])
